@@ -65,7 +65,7 @@ func tokensOf(v interp.Value) []tokView {
 }
 
 func nativeTokens(w *Worker, src string) ([]map[string]interface{}, string, bool) {
-	resp, timedOut, err := w.N.Do(NativeReq{Op: "lex", Src: src}, 5e9)
+	resp, timedOut, err := w.N.DoPatient(NativeReq{Op: "lex", Src: src}, 5e9)
 	if err != nil || timedOut {
 		return nil, "timeout or helper failure", false
 	}
